@@ -172,14 +172,17 @@ def scenario(seed, failures, stats):
             if not any(Fraction(t) == s or (d is not None and s < Fraction(t) <= s + d) for s, d in origs):
                 bad("a compiled instance of the forward plan lies outside its action's duration", f"{ai} at {t}; originals {origs}"[:400])
         # B
+        variable = any(ai.action.name == "d5" for _, ai, _ in items)
         try:
             back = res.plan_back_conversion(fwd)
         except Exception as ex:  # noqa
+            if variable:
+                stats["variable_mismatch"] = stats.get("variable_mismatch", 0) + 1   # variable durations: outside the property
+                continue
             adjacent = any(a1 is not a2 and a1[1].action == a2[1].action and a1[1].actual_parameters == a2[1].actual_parameters for a1 in items for a2 in items)
             bad(f"plan_back_conversion(forward(plan)) raises {type(ex).__name__}" + (" [several instances of one ground action]" if adjacent else ""),
                 f"{plan} -> {fwd}: {ex}"[:500])
             continue
-        variable = any(ai.action.name == "d5" for _, ai, _ in items)
         if as_multiset(back.timed_actions) != as_multiset(items) and variable:
             stats["variable_mismatch"] = stats.get("variable_mismatch", 0) + 1   # outside the property (fixed durations only): counted, not reported
         elif as_multiset(back.timed_actions) != as_multiset(items):
